@@ -36,13 +36,20 @@ TRUSTED = ['Coq 8.16.1 kernel (coqc; coqchk in the thorough tier)',
            'the abstract primitives of Model/ZernikeFit.v: zpoly (mode samples), is0 (bool cast of the mask), solve']
 ASSUMPTIONS = ['masks <= 16x16, modes subsets of Noll 1..15 (<= 15 modes), cond(masked basis) <= 1e3 (Gram <= 1e6): '
                'ill-conditioned mode sets are skipped and counted (coverage.extra.skipped_ill_conditioned)',
-               'comparison tolerance 1e-8 relative to the magnitude of the data',
-               'rho and theta are given together; opd and mask have the same shape (other shapes: error behaviour only)']
+               'every tolerance is relative to the magnitude of the EXPECTED data (no absolute floor): 1e-8 for fit/remove, '
+               '1e-12 * sum_j |c_j| max|Z_j| for compose (a k-term float sum), and per coefficient '
+               '1e-6 |c_i| + 1e-13 max(10, cond) max|c| for fit(compose(c)) (measured margin > 50x on 4500 cases)',
+               'rho and theta are given together; opd and mask have the same shape (other shapes: error behaviour only)',
+               'cases whose estimated exact-arithmetic cost exceeds the model budget are decided by the oracle only '
+               '(coverage.extra.oracle_only_over_model_budget)']
 RULE = ('masks: circle (centred/off-centre), hexagon (both orientations, shifted), hex_segments flattened, one off-axis '
-        'segment, two disjoint circles, non-binary weights; shapes 4..16 incl. non-square; modes: random subsets of 1..15 in '
-        'random order (contiguous, non-contiguous, single); rational coefficients; both normalize settings; default and '
-        'caller-supplied (rho, theta); ops compose / fit / remove; OPDs = composed modes (also modes outside the fitted '
-        'set) + dyadic noise, non-zero outside the mask; error cases (mode index < 1, wrong opd size/shape); '
+        'segment, two disjoint circles, integer segment labels (1..6 or 2/3), non-binary weights; mask dtype float / int / '
+        'bool / uint8 / int32; shapes 4..16 incl. non-square; modes: random subsets of 1..15 in random order (contiguous, '
+        'non-contiguous, single); rational coefficients of order one, vectors mixing order-one with 1e-9..1e-11 entries, '
+        'and whole vectors scaled by 1e-12, 1e-9, 1e-6, 1e-3 or 250 (the scale is applied before zernike_compose); both '
+        'normalize settings; default and caller-supplied (rho, theta); ops compose (incl. homogeneity compose(1e-9 c) and '
+        'the mode-by-mode sum) / fit / remove; OPDs = composed modes (also modes outside the fitted set) + dyadic noise, '
+        'non-zero outside the mask; error cases (mode index < 1, wrong opd size/shape); '
         'non-trivial = at least 2 modes or a non-contiguous set, and the mask does not fill the array')
 
 TOL = 1e-8
